@@ -3,7 +3,7 @@ from reg._common import COMMON_ASSUME
 
 ENTRY = {
     'extractors': ['translate_f90.py'],
-    'lean_files': ['Tables/SrcF90Kernels.lean', 'Tables/C08.lean', 'Props/C08.lean', 'Props/C08Triangle.lean', 'Props/C08Rounding.lean', 'Props/C08TriangleRounding.lean'],
+    'lean_files': ['Tables/SrcF90Kernels.lean', 'Tables/C08.lean', 'Props/C08.lean', 'Props/C08More.lean', 'Props/C08Triangle.lean', 'Props/C08Rounding.lean', 'Props/C08TriangleRounding.lean'],
     'lemma_files': ['Lemmas/RoundingTriElev.lean', 'Lemmas/RoundingTriPy.lean', 'Lemmas/Rounding.lean', 'Lemmas/RoundingMore.lean', 'Lemmas/TriDeriv.lean', 'Lemmas/Triangle.lean', 'Model/Triangle.lean', 'Lemmas/Shift.lean', 'Lemmas/Bridge.lean', 'Lemmas/VS.lean', 'Lemmas/Elevate.lean', 'Model/Basic.lean', 'Model/Curve.lean'],
     'script': 'props/c08.py',
     'rule': 'cases = (routine, number of nodes, dimension, net); elevation: scaled identity nets (all unit nets, outputs integral => '
@@ -13,7 +13,7 @@ ENTRY = {
             'relative distance 0 / 2^-40 / 2^-20 from the elevated subspace; Triangle.elevate degrees 1..12 (exact formula, corners '
             'bitwise); non-trivial = net not all zero; distinct by hash of exact inputs',
     'partial': [
-                'full_reduce_elevate proved for one elevation step per call (k-fold follows by iteration of the same lemma)',
+                'full reduction (Props/C08More, any ordered field, any dimension): can_reduce_elevate_nodes (an elevated net has projection error exactly 0), full_reduce_elevate_nodes, full_reduce_elevate_iter (k-fold elevation within the supported 5 nodes is stripped completely), full_reduce_strips_exactly (a net declined by maybe_reduce at the threshold comes back unchanged from any of its elevations: exactly the spurious elevations are removed); what is NOT proved is a data-independent criterion for maybe_reduce to decline (it depends on the threshold and the net: the script plants nets at graded distances from the elevated subspace)',
                 'rounding theorems (Props/C08Rounding): elevation exponent 4 (Python) / 3 (Fortran) with scale |v_{j-1}|+|v_j|, reduction tables exponent N+3 <= 8; comparators 8u, 16u; triangle elevation (Props/C08TriangleRounding): exponent 5 (4 if fl is idempotent) under fl(d+1) = d+1, corners exact, comparator 16 u max|v|',
                 'Triangle.elevate: proved for every degree (Props/C08Triangle): length, the three corners are copied exactly (raw, notation classes only - the statement behind the repaired defect F-I), the closed formula of every entry, and tri_elevate_same_map: the elevated net defines the same map (l1+l2+l3) * B(l) for all barycentric weights; tied to the code by the triangle elevation op of the driver',
     ],
